@@ -58,6 +58,10 @@ def run_case(tid, cons, styles, bounds, max_cards, style, rng):
                                               "test": NonnegMean.alpha_mart, "use_style": style})
         contests[c] = _CONTESTS[c]
         contests[c].cards = None if bounds[c] < 0 else bounds[c]
+        # a bound may arrive as a numpy integer (computed with numpy / pandas, or raised by Contest.check_cards)
+        if bounds[c] >= 0 and rng.random() < 0.3:
+            import numpy as np
+            contests[c].cards = np.int64(bounds[c])
         contests[c].use_style = style
     audit = compare.mk_audit(style, max_cards)
     try:
